@@ -752,6 +752,32 @@ def run (ops : List Op) (t : Table) : Except OpErr (Table × List Op) :=
   | (ops', .ok t') => .ok (t', ops')
   | (_, .error e) => .error e
 
+/-- the property's composition clause as an independent expectation: the operations one at a time, each
+through a dispatcher of its own (`Dispatcher([op]).run_operations(previous result)`) -/
+def runOneByOne : List Op → Table → Except OpErr Table
+  | [], t => .ok t
+  | o :: os, t =>
+    match (runSt [o] t).2 with
+    | .ok t1 => runOneByOne os t1
+    | .error e => .error e
+
+/-- the operations applied back to back WITHOUT the conversions in between -/
+def applyRaw : List Op → Table → Except OpErr Table
+  | [], t => .ok t
+  | o :: os, t =>
+    match (opImpl o t).2 with
+    | .ok t1 => applyRaw os t1
+    | .error e => .error e
+
+/-- NOT `run_operations`: a dispatcher that converts n/a → NaN once before the loop and NaN → n/a once after it.
+An operation that writes the text 'n/a' itself (remap_columns for "no value", split_rows for an event called
+n/a) then hands text to the next operation where `run_operations` hands NaN
+(Props/C17: `hoisted_prep_counterexample`). -/
+def runHoisted (ops : List Op) (t : Table) : Except OpErr Table :=
+  match applyRaw ops (prep t) with
+  | .ok t' => .ok (post t')
+  | .error e => .error e
+
 /-- several tables through ONE dispatcher, in the given order -/
 def runManyWith (step : Op → Table → Op × Except OpErr Table) :
     List Op → List Table → List Op × List (Except OpErr Table)
